@@ -143,7 +143,7 @@ func TestSaltPoolModel(t *testing.T) {
 	rapid.Check(t, func(rt *rapid.T) {
 		ops := rapid.SliceOfN(gen, 1, 30).Draw(rt, "ops")
 		var hist []string
-		if v := guarded(200000, func() string { return fmt.Sprintf("pool history: %v", hist) }, func(failCase func(string, ...any)) {
+		if v := guarded(1000, func() string { return fmt.Sprintf("pool history: %v", hist) }, func(failCase func(string, ...any)) {
 			var pool ss2022.SaltPool
 			base := time.Date(2026, 1, 1, 0, 0, 0, 0, time.UTC)
 			now := time.Duration(0)
